@@ -159,6 +159,11 @@ func init() {
 		i.stdinOff += n
 		return tuple{n, iface{}}, true
 	}
+	// writes to an *os.File (the code under test can only hold os.Stdout / os.Stderr) are discarded
+	native["(*os.File).Write"] = func(fr *frame, args []value) (value, bool) {
+		buf, _ := args[1].([]value)
+		return tuple{len(buf), iface{}}, true
+	}
 	native["(*os.File).Close"] = func(fr *frame, args []value) (value, bool) {
 		return iface{}, true
 	}
